@@ -1,7 +1,7 @@
 """Semantic tables of the logical layer extracted by symbolic execution (symex) of CelValue::or / and / Not::not:
 for every combination of the opaque predicates is_err(x) / is_truthy(x) on the operands the function's result.
 Used by C05 (absorption rules, one truthiness)."""
-import re
+import re, os
 import lib, symex
 from symex import U, render
 
@@ -67,7 +67,7 @@ class ArmPolicy(symex.Policy):
     def limit_for(self, body, blk):
         if body.path == self.vm.b.path and blk in self.stop:
             return 0
-        return 4       # counted arms: up to three elements / entries
+        return 4 + (1 if os.environ.get("VERIF_DEEP") == "1" else 0)       # counted arms: up to three (thorough: four) elements / entries
 
     def abandoned(self, st, body, blk):
         if body.path == self.vm.b.path and blk in self.stop:
